@@ -61,7 +61,20 @@ fn check_writer(ctx: &mut Ctx, label: &str, obj: &dyn AttributeWrite, value_len:
         let short_hdr_ok = matches!(obj.write_header(&mut h3), Err(StunWriteError::TooSmall { expected: 4, actual: 3 })) && h3 == [FILL; 3];
         alt.push(("to_raw().into_owned().to_bytes()", obj.to_raw().into_owned().to_bytes()));
         alt.push(("second to_raw().to_bytes()", obj.to_raw().to_bytes()));
-        alt.push(("RawAttribute::from_bytes(bytes).to_bytes()", RawAttribute::from_bytes(&via_raw).map(|a| a.to_bytes()).unwrap_or_default()));
+        // clone / clone_from onto an owned raw attribute of the same value length but another type
+        {
+            let src = obj.to_raw().into_owned();
+            let mut dst = RawAttribute::new(AttributeType::new(src.get_type().value() ^ 0x0101), &vec![0x99u8; src.value.len()]).into_owned();
+            dst.clone_from(&src);
+            alt.push(("clone_from(to_raw()).to_bytes()", dst.to_bytes()));
+            alt.push(("to_raw().clone().to_bytes()", src.clone().to_bytes()));
+        }
+        // (only while the padded TLV is at most 65 535 + 4 bytes: beyond that RawAttribute::from_bytes
+        // compares the 16-bit length with `(len - 4) as u16` and refuses the attribute - no message can
+        // carry such an attribute and no property speaks about it, see DESIGN.md 11.3)
+        if via_raw.len() <= 65_535 + 4 {
+            alt.push(("RawAttribute::from_bytes(bytes).to_bytes()", RawAttribute::from_bytes(&via_raw).map(|a| a.to_bytes()).unwrap_or_default()));
+        }
         (via_raw, padded, obj.length(), raw.length(), results, alt, short_hdr_ok)
     });
     let (via_raw, padded, len, rawlen, results, alt, short_hdr_ok) = match r {
@@ -223,6 +236,29 @@ pub fn check_builder_paths(ctx: &mut Ctx, p: &Program, all_short: bool) {
             let ret = b.write_into(&mut dest).map_err(|e| format!("{e:?}"));
             outs.push((extra, ret, dest));
         }
+        // clone_from onto a builder that already holds other attributes of the same sizes
+        let cloned_from = {
+            let mut other = b.clone().into_owned();
+            // give the target different content first: retag through a fresh program with shifted raw types
+            let shifted = Program {
+                class: (p.class + 1) % 4,
+                method: p.method ^ 1,
+                tid: [0x3d; 12],
+                attrs: p.attrs.iter().map(|a| AttrSpec::Raw(a.ty() ^ 0x0202, vec![0x11; a.wire_value(&p.tid).len()])).filter(|a| !matches!(a.ty(), 0x0008 | 0x001c | 0x8028)).collect(),
+                seals: vec![],
+                creds: p.creds.clone(),
+            };
+            if let Ok(o2) = make_objs(&shifted) {
+                if let Ok(b2) = apply_program(&shifted, &o2) {
+                    other = b2.into_owned();
+                }
+            }
+            other.clone_from(&b.clone().into_owned());
+            other.build()
+        };
+        if cloned_from != built {
+            return Err(format!("CLONE-FROM {} bytes, first difference at {:?}", cloned_from.len(), cloned_from.iter().zip(built.iter()).position(|(x, y)| x != y)));
+        }
         let cloned = b.clone().build();
         let cloned_owned = b.clone().into_owned().build();
         let shorts: Vec<usize> = if all_short || len <= 600 { (0..len).collect() } else { vec![0, 1, 19, 20, 21, len / 2, len - 4, len - 1] };
@@ -242,6 +278,7 @@ pub fn check_builder_paths(ctx: &mut Ctx, p: &Program, all_short: bool) {
     match r {
         Err(pn) => ctx.violation("C12", "no-panic", "MessageBuilder::write_into", "", w, "bytes".into(), format!("panic: {} at {}", pn.msg, pn.loc)),
         Ok(Err(e)) if e.starts_with("REFUSED-OP-TRACE") => ctx.violation("C12", "build-after-refused-operation", "MessageBuilder::build", "", w, "the serialisation as it was before the refused operations".into(), e),
+        Ok(Err(e)) if e.starts_with("CLONE-FROM") => ctx.violation("C12", "owned-and-clone-equal-build", "MessageBuilder::clone_from", "", w, "clone_from gives a builder that serialises like its source".into(), e),
         Ok(Err(e)) if e.starts_with("HUGE-DESTINATION") => ctx.violation("C12", "write-into-equals-build", "MessageBuilder::write_into", "destination+65536", w, "Ok(len), bytes equal to build(), nothing beyond touched".into(), e),
         Ok(Err(_)) => {}
         Ok(Ok((built, len, outs, cloned, cloned_owned, owned, short_res))) => {
@@ -354,6 +391,18 @@ pub fn run(ctx: &mut Ctx) {
         check_builder_paths(ctx, &p, false);
         ctx.count("oversized-builders");
     }
+    // ---- values at the very top of the 16-bit length (65 528 .. 65 535 bytes): the padded length needs 17 bits ----
+    for len in [65_528usize, 65_529, 65_531, 65_532, 65_533, 65_534, 65_535] {
+        idx += 1;
+        if !ctx.mine(idx) {
+            continue;
+        }
+        let mut rng = ctx.rng("raw-top", idx);
+        let v = rng.bytes(len);
+        check_raw(ctx, 0x7f31, &v, false);
+        check_value(ctx, Kind::AlternateDomain, &RefVal::Text(text_exact(&mut rng, len)), &tid, false);
+        ctx.count("values-at-the-16-bit-limit");
+    }
     // ---- mutation between serialisations ----
     for n0 in 0..6usize {
         for nadd in 1..5usize {
@@ -433,6 +482,7 @@ pub fn run(ctx: &mut Ctx) {
     }
     for k in ALL_KINDS {
         ctx.require("oversized-builders", 4);
+    ctx.require("values-at-the-16-bit-limit", 7);
     ctx.require("huge-destinations", 1_000);
     ctx.require(&format!("writer:{}", k.name()), 50);
     }
